@@ -1,7 +1,9 @@
 #!/usr/bin/env python3
 """Run the registered quick check of a seeded change's property against /repo with the patch applied
 (git -C /repo apply; undone straight afterwards) and record the verdict in seeded/<id>/meta.json.
-   python3 tools/eval_seed.py <seed id> [--tier quick|thorough] [--units a,b]"""
+   python3 tools/eval_seed.py <seed id> [--tier quick|thorough] [--units a,b] [--worktree <dir>]
+With --worktree the patch is applied to that scratch worktree of /repo instead (VERIF_REPO=<dir>), so that /repo itself stays
+untouched and several seeds can be evaluated at once."""
 import json
 import os
 import re
@@ -20,6 +22,9 @@ def main():
         tier = sys.argv[sys.argv.index('--tier') + 1]
     if '--units' in sys.argv:
         units = sys.argv[sys.argv.index('--units') + 1]
+    global REPO
+    if '--worktree' in sys.argv:
+        REPO = sys.argv[sys.argv.index('--worktree') + 1]
     d = os.path.join(VERIF, 'seeded', sid)
     meta = json.load(open(os.path.join(d, 'meta.json')))
     prop = meta['property']
@@ -33,6 +38,7 @@ def main():
         if units:
             cmd += ['--units', units]
         env = dict(os.environ)
+        env['VERIF_REPO'] = REPO
         env['VERIF_EVIDENCE_DIR'] = '/var/tmp/zkverif-seed-evidence'   # do not overwrite the committed evidence with a mutant run
         p = subprocess.run(cmd, cwd=VERIF, capture_output=True, text=True, env=env)
     finally:
